@@ -36,7 +36,14 @@ ThreeZones == {<<Ob("STANDARD", "OLD", p[1] - 60, p[1] - 60, Minutes(1970, 1, 1,
 CrossZones == {<<Ob("STANDARD", "A", a, 0, Minutes(2001, 6, 1, 600), None),
                  Ob("DAYLIGHT", "B", b, 60, Minutes(2001, 6, 1, 600 - d), None)>> :
                  a \in {840, 600}, b \in {-720, -300}, d \in {30, 240}}
-Init == z \in FixedZones \cup YearlyZones \cup RDateZones \cup ThreeZones \cup (IF Cross THEN CrossZones ELSE {})
+\* the abbreviation changes while the offset stays (+1000 EST -> AEST): the name is part of the answer
+RenameZones == {<<Ob("STANDARD", "OLDN", o, o, Minutes(1970, 1, 1, 0), None),
+                  Ob("STANDARD", "NEWN", o, o, Minutes(y0, 3, 1, 120), None)>> : o \in Fixed, y0 \in Y0s}
+              \cup {<<Ob("STANDARD", "N1", o, o, Minutes(1970, 1, 1, 0), None),
+                      Ob("DAYLIGHT", "N2", o, o, Minutes(y0, 3, 1, 120), None),
+                      Ob("STANDARD", "N3", o, o, Minutes(y0 + 1, 10, 1, 180), RDate({Minutes(y0 + 3, 10, 1, 180)})),
+                      Ob("DAYLIGHT", "N2", o, o, Minutes(y0 + 2, 3, 1, 120), None)>> : o \in Fixed, y0 \in Y0s}
+Init == z \in FixedZones \cup YearlyZones \cup RDateZones \cup ThreeZones \cup RenameZones \cup (IF Cross THEN CrossZones ELSE {})
 Next == UNCHANGED z
 Spec == Init /\ [][Next]_z
 
